@@ -4,6 +4,7 @@ import (
 	"bufio"
 	"bytes"
 	"fmt"
+	"net/url"
 	"strings"
 	"sync"
 
@@ -103,6 +104,20 @@ func deliverChallenge(hv base.HeaderValue) (base.HeaderValue, error) {
 	return r.Header["WWW-Authenticate"], nil
 }
 
+// parseClientURL builds the URL the application hands to the client. Plain entries go through base.ParseURL;
+// entries marked "raw:" are converted from net/url (base.URL is a defined type over url.URL), i.e. the request
+// line carries exactly the text any RTSP client would send for that resource.
+func parseClientURL(s string) (*base.URL, error) {
+	if rest, ok := strings.CutPrefix(s, "raw:"); ok {
+		u, err := url.Parse(rest)
+		if err != nil {
+			return nil, err
+		}
+		return (*base.URL)(u), nil
+	}
+	return base.ParseURL(s)
+}
+
 var srvViewCache sync.Map
 
 type srvView struct {
@@ -117,7 +132,7 @@ func serverView(s string) srvView {
 		return v.(srvView)
 	}
 	var sv srvView
-	u, err := base.ParseURL(s)
+	u, err := parseClientURL(s)
 	if err != nil {
 		sv.err = err
 	} else {
@@ -171,7 +186,7 @@ func schemeMethod(s string) int {
 }
 
 // clientRequest: the library's client side. Sender from the challenge, Authorization added to (method, url).
-func clientRequest(challenge base.HeaderValue, user, pass, method, url string) (creq *base.Request, stage, msg string) {
+func clientRequest(challenge base.HeaderValue, user, pass, method, rawurl string) (creq *base.Request, stage, msg string) {
 	defer func() {
 		if r := recover(); r != nil {
 			creq, stage, msg = nil, "sender-panic", fmt.Sprint(r)
@@ -181,7 +196,7 @@ func clientRequest(challenge base.HeaderValue, user, pass, method, url string) (
 	if err := se.Initialize(); err != nil {
 		return nil, "sender-init", err.Error()
 	}
-	u, err := base.ParseURL(url)
+	u, err := parseClientURL(rawurl)
 	if err != nil {
 		return nil, "url-parse", err.Error()
 	}
@@ -217,7 +232,7 @@ func buildBase(c caseT) *baseCtx {
 	}
 	if c.AuthURL != "" {
 		// same Authorization, request line for c.URL
-		u, err2 := base.ParseURL(c.URL)
+		u, err2 := parseClientURL(c.URL)
 		if err2 != nil {
 			b.stage, b.stageErr = "url-parse", err2.Error()
 			return b
